@@ -68,9 +68,12 @@ def vocabulary():
           ("S", "tags", [("k", "test")], ("cmp", "==", ("s", "x"))), ("S", "tags", [("k", "exists")], ("exists",)),
           ("S", "tags", [("k", "map")], ("cmp", "!=", ("s", "x"))), ("S", "fields", [("k", "noop")], ("cmp", ">", ("n", 0))),
           ("S", "fields", [("k", "matches")], ("exists",)), ("S", "tags", [("k", "search")], ("match", 0, 0)),
+          ("S", "tags", [("m", 6), ("k", "a")], ("cmp", "==", ("s", "ab"))), ("S", "tags", [("m", 6), ("k", "b")], ("exists",)),
+          ("S", "fields", [("m", 6), ("k", "a")], ("cmp", ">=", ("n", 1))), ("S", "tags", [("m", 0), ("k", "a")], ("cmp", "!=", ("s", "ab"))),
           ("noop", "tags"), ("noop", "fields"), ("noop", "meas"), ("noop", "time")]
     # test functions that raise on some value types: well-formedness (total test) fails, outcome "raise" is compared too
-    raising = [("S", "tags", [("k", "a")], ("user", 1)), ("S", "fields", [("k", "a")], ("user", 1)), ("S", "fields", [("k", "a")], ("user", 2))]
+    raising = [("S", "tags", [("k", "a")], ("user", 1)), ("S", "fields", [("k", "a")], ("user", 1)), ("S", "fields", [("k", "a")], ("user", 2)),
+               ("S", "fields", [("k", "a")], ("user", 5)), ("S", "fields", [("k", "a")], ("user", 6))]     # bound methods of two instances of one class
     return v, raising
 
 
